@@ -290,7 +290,8 @@ PLANS['C17'] = dict(
     engine='signature', level='exploration', jobs=lambda tier: _grid_jobs(tier, ('py', 'c')),
     exhaustive=True,
     minimums=lambda t: {'signature_pairs': 6900, 'pairs_accepted': 1000, 'pairs_rejected': 1000, 'multi_error_cases': 800,
-                        'cases_with_2plus_errors': 150, 'special_cases': 5, 'multi_overridden_method': 50, 'multi_base_depth[3]': 30},
+                        'cases_with_2plus_errors': 150, 'special_cases': 5, 'multi_overridden_method': 50, 'multi_base_depth[3]': 30,
+                        'multi_reverified_after_ancestor_rebase': 100, 'multi_keys_differing_from_description_names': 100},
     rule='Complete grid of (interface method signature) x (implementation signature), each over required 0-3 x defaulted 0-2 x *args '
          'x **kwargs (48 x 48 = 2304 pairs) in three forms (plain function on the instance, bound method, verifyClass with self); '
          'the admitted call shapes of the interface signature are built explicitly and tried with inspect.signature(impl).bind; '
